@@ -175,6 +175,16 @@ def check_source_tie(tie):
                 "the stepping shim does not execute what the production start-up executes" % (tie["func"], tie["file"]))
     return None
 
+HARNESS_ENV = {}   # extra environment for harness runs (e.g. VERIF_REF: path of a reference co-process)
+
+def build_ref(ref, work):
+    """build a reference co-process from its own module (e.g. /verif/goref: go-ethereum v1.8.27)"""
+    out = os.path.join(work, os.path.basename(ref["pkg"]))
+    if os.path.exists(out):
+        os.remove(out)
+    rc, o, dt = sh(["go", "build", "-o", out, ref["pkg"]], cwd=os.path.join(VERIF, ref["dir"]), env=GOENV, timeout=1800)
+    return rc, o, out
+
 def run_harness(binpath, work, tag, seed, tier, replay=None, timeout=1800, extra_args=None):
     ops = os.path.join(work, f"{tag}.ops")
     impl = os.path.join(work, f"{tag}.impl")
@@ -187,7 +197,7 @@ def run_harness(binpath, work, tag, seed, tier, replay=None, timeout=1800, extra
         cmd += ["-replay", replay]
     if extra_args:
         cmd += extra_args
-    env = dict(GOENV, GOMEMLIMIT="6GiB")
+    env = dict(GOENV, GOMEMLIMIT="6GiB", **HARNESS_ENV)
     rc, o, dt = sh(cmd, cwd=work, env=env, timeout=timeout)
     return rc, o, ops, impl, meta
 
@@ -301,6 +311,15 @@ def run_engine(spec, eng, tier, seed, work, rep, known, cov):
                                "the tie between model and code is not established",
                        "output": o[-4000:]}, no_input=True)
         return
+    HARNESS_ENV.pop("VERIF_REF", None)
+    if eng.get("ref"):
+        rcr, orr, refpath = build_ref(eng["ref"], work)
+        if rcr != 0:
+            cov["harness_build_failed"].append(name + ":ref")
+            rep.violation({"kind": "harness-does-not-build", "engine": name,
+                           "what": "the reference co-process does not build", "output": orr[-3000:]}, no_input=True)
+            return
+        HARNESS_ENV["VERIF_REF"] = refpath
     shards = eng.get("shards", {}).get(tier, 1)
     to = eng.get("timeout", {}).get(tier, 1500)
     def one(sh_i):
